@@ -25,14 +25,14 @@ PROPS = {
     },
     "C09": {
         "level": "exploration",
-        "tests": [{"name": "TestC09", "noasm": True, "quick": 8000, "thorough": 120000}],
+        "tests": [{"name": "TestC09", "noasm": True, "quick": 8000, "thorough": 120000}, {"name": "TestC09Ex", "kind": "plain"}],
         "rule": "cases = (data recipe, accelerated setting over flate/gzip/zlib incl. 4K window, Flush offsets, two Write partitions refining the same Flush offsets, zero-length writes) drawn by rapid; "
                 "oracle (metamorphic): both partitions emit byte-for-byte what one Write per Flush segment emits. Non-trivial = the two partitions differ and data is non-empty; distinct = case digest.",
         "assumptions": COMMON_ASSUME,
     },
     "C10": {
         "level": "exploration",
-        "tests": [{"name": "TestC10", "noasm": True, "quick": 8000, "thorough": 120000}],
+        "tests": [{"name": "TestC10", "noasm": True, "quick": 8000, "thorough": 120000}, {"name": "TestC10Ex", "kind": "plain"}],
         "rule": "cases = (data recipe, flate/gzip/zlib setting at any level incl. Huffman-only, 4K window, dictionary; Write/Flush sequence with Flush first / repeated / with nothing pending / exactly at buffer-full points) drawn by rapid; "
                 "oracle at every Flush: reference inflater on the bytes emitted so far yields exactly the data written so far and stops at a byte-aligned block boundary (verdict TRUNCATED, not CORRUPT); the standard library reader yields the same bytes then io.ErrUnexpectedEOF; after Close the whole container is valid. "
                 "Non-trivial = at least one Flush with data before it and a Write after a Flush, served by fastgo's own compressor.",
@@ -115,6 +115,7 @@ PROPS = {
         "tests": [
             {"name": "TestC04", "noasm": True, "quick": 5000, "thorough": 80000},
             {"name": "TestC04Ex", "kind": "plain"},
+            {"name": "TestC04Win", "kind": "plain", "shards": {"quick": 3, "thorough": 4}},
         ],
         "rule": "cases = (valid stream from the C02 generators, or such a stream cut at a drawn byte) x source schedule (all at once, 1-byte, drawn chunk sizes incl. (0,nil) reads and sizes around 16/328/4096, io.EOF delivered with the last bytes or alone) x entry point (NewReader(plain source), NewReader(*bufio.Reader of size s), Reset(*bufio.Reader of size s)), s in {16,17,31,64,327..329,4095..4097,64Ki,1Mi} x Read size sequence; plus, for small fixed streams, the two-chunk split at every byte offset and the 1-byte schedule (enumerated). "
                 "Oracle (metamorphic): bytes and final error equal those of the all-at-once run. Non-trivial = >=3 source reads, or destination size 1, or bufio size < 328.",
